@@ -11,6 +11,8 @@ EXTENDS Integers, Sequences, FiniteSets, TLC, Json
 CONSTANTS ShapeIds, JuncIds, ConnIds, HLEN
 Rects == {<<2, 2, 10, 10>>, <<14, 2, 22, 10>>, <<2, 14, 10, 22>>, <<14, 14, 22, 22>>}
 Pts   == {<<12, 1>>, <<1, 12>>, <<23, 12>>, <<12, 23>>, <<12, 12>>}
+\* junction positions: never on a free endpoint (a junction is an obstacle; an endpoint on its centre is degenerate) -- odd coordinate, even moves
+JPts  == {<<12, 11>>, <<11, 12>>, <<13, 12>>}
 \* pin catalogue: <<class, xq, yq (proportional, quarters), inside, dirs, exclusive>>
 PinCat == {<<1, 0, 2, 0, 4, 1>>, <<1, 4, 2, 0, 8, 1>>, <<1, 2, 0, 0, 1, 0>>, <<2, 2, 4, 0, 2, 0>>, <<2, 2, 2, 0, 15, 0>>, <<1, 2, 2, 1, 15, 1>>}
 Moves == {<<2, 0>>, <<0, -2>>, <<-2, 2>>}
@@ -84,7 +86,7 @@ ChangeEnd(c, i, e) == /\ Exists(cn[c]) /\ EndOK(e) /\ e # cend[c][3 - i]
 Next == /\ Len(hist) < HLEN
         /\ \/ \E s \in ShapeIds, r \in Rects : NewShape(s, r)
            \/ \E s \in ShapeIds, p \in PinCat : NewPin(s, p)
-           \/ \E j \in JuncIds, p \in Pts : NewJunction(j, p)
+           \/ \E j \in JuncIds, p \in JPts : NewJunction(j, p)
            \/ \E c \in ConnIds, e1 \in Ends, e2 \in Ends : NewConn(c, e1, e2)
            \/ \E c \in ConnIds, p \in Pts : SetCheckpoint(c, p)
            \/ \E s \in ShapeIds, d \in Moves : MoveShape(s, d)
